@@ -1821,7 +1821,7 @@ func runCacheSizes(cfg *config, id int, r *hx.Rng, big bool, medium bool) {
 	refOut := groupOutputs(ref)
 	// 2. the same operations at small capacities
 	for _, cap := range caps {
-		tmp := filepath.Join(os.TempDir(), fmt.Sprintf("verif-c16-%d-%d.txt", os.Getpid(), cap))
+		tmp := filepath.Join(cfg.dir, fmt.Sprintf("c16-%d-%d.txt", os.Getpid(), cap)) // (in the run directory: removed with it whatever happens)
 		sub := &config{seed: cfg.seed, tier: cfg.tier, dir: cfg.dir, rng: hx.NewRng(1), st: hx.NewStats(), tr: hx.NewTrace(tmp)}
 		replayDBCap(sub, 1, ops, cap)
 		sub.tr.Close()
